@@ -133,7 +133,10 @@ def val_py(v):
   raise ValueError(v)
 
 
-BUILTIN_CLSOBJ = ["int", "str", "list"]
+# builtin class objects: classes without `__iter__` only.  (`str`/`tuple`/`list` the *class objects* against Iterable[...]
+# go through pytype's structural protocol matcher, whose verdict for them depends on what was matched earlier in the
+# module; they are outside F2.)
+BUILTIN_CLSOBJ = ["int", "float", "bool"]
 
 
 def val_tok(v):
@@ -534,3 +537,500 @@ def run_real(jobs, procs=16):
     else:
       res.append({"obs": {(k[0], k[1]): v for k, v in o["obs"]}, "stray": o["stray"]})
   return res
+
+
+# ----------------------------------------------------------------------------------------------
+# the Lean model through its driver
+# ----------------------------------------------------------------------------------------------
+FIELDS = ("arg", "ret", "asg", "member", "inF2", "guard", "pyDistinct", "singleView")
+
+
+def model_predict(drv, batches):
+  """batches: list of (mros, pairs); returns list (per batch) of list (per pair) of dict field -> bool"""
+  lines = []
+  for mros, pairs in batches:
+    lines.append(hier_tok(mros))
+    for a, v in pairs:
+      lines.append("chk %s | %s" % (ann_tok(a), val_tok(v)))
+  out = drv.batch(lines)
+  res, pos = [], 0
+  for mros, pairs in batches:
+    rows = []
+    for _ in pairs:
+      toks = out[pos].split()
+      pos += 1
+      if len(toks) != len(FIELDS):
+        raise RuntimeError("driver answered %r" % out[pos - 1])
+      rows.append({f: t == "1" for f, t in zip(FIELDS, toks)})
+    res.append(rows)
+  return res
+
+
+# ----------------------------------------------------------------------------------------------
+# helpers shared by K / W / S
+# ----------------------------------------------------------------------------------------------
+def sub_anns(a):
+  yield a
+  k = a[0]
+  if k in ("union", "tup"):
+    for x in a[1]:
+      yield from sub_anns(x)
+  elif k in GEN1 or k == "opt":
+    yield from sub_anns(a[1])
+  elif k in GEN2:
+    yield from sub_anns(a[1])
+    yield from sub_anns(a[2])
+
+
+def sub_vals(v):
+  yield v
+  k = v[0]
+  if k in ("list", "tuple", "set", "fset"):
+    for x in v[1]:
+      yield from sub_vals(x)
+  elif k == "dict":
+    for a, b in v[1]:
+      yield from sub_vals(a)
+      yield from sub_vals(b)
+
+
+def has_coll(a):
+  return any(x[0] == "coll" for x in sub_anns(a))
+
+
+def multi_display(v):
+  """some display has two or more elements (its parameter variable holds several bindings)"""
+  return any(x[0] in ("list", "set", "fset", "dict") and len(x[1]) >= 2 for x in sub_vals(v))
+
+
+def is_flat_ann(a):
+  return a[0] in _PY_ANN or a[0] in ("cls", "typec")
+
+
+def tojson(x):
+  if isinstance(x, (tuple, list)):
+    return [tojson(y) for y in x]
+  return x
+
+
+def pair_repr(bases, a, v, site=None):
+  d = {"annotation": ann_py(a), "value": val_py(v), "hierarchy": hierarchy_src(bases).strip().split("\n")}
+  if site:
+    d["site"] = site
+  return d
+
+
+def exhaustive_atoms():
+  """every atomic annotation against every atomic value"""
+  vals = ([("int", 0), ("int", 7), ("bool", True), ("bool", False), ("float", 0), ("complex", 0), ("str", ""),
+           ("str", "ab"), ("bytes", ""), ("bytes", "ab"), ("none",), ("func", 0), ("func", 2)]
+          + [("inst", i) for i in range(NCLS)] + [("clsobj", i) for i in range(NCLS)]
+          + [("bclsobj", b) for b in BUILTIN_CLSOBJ])
+  return [(a, v) for a in atom_anns() for v in vals]
+
+
+def batches_of(pairs, rng, size=20):
+  """split into modules of `size` pairs, each with its own generated hierarchy"""
+  out = []
+  for i in range(0, len(pairs), size):
+    bases, mros = gen_hierarchy(rng)
+    out.append((bases, mros, pairs[i:i + size]))
+  return out
+
+
+# ----------------------------------------------------------------------------------------------
+# K — correspondence: real pytype at the three sites vs the Lean model
+# ----------------------------------------------------------------------------------------------
+def correspond(res, rng, tier):
+  t0 = time.time()
+  drv = common.ensure_driver("drv_c02")
+  nrand = 1000 if tier == "quick" else 19500
+  pairs = exhaustive_atoms()
+  n_ex = len(pairs)
+  seen = {json.dumps([tojson(a), tojson(v)]) for a, v in pairs}
+  tries = 0
+  while len(pairs) < n_ex + nrand and tries < 20 * nrand:
+    tries += 1
+    a, v = gen_pair(rng)
+    key = json.dumps([tojson(a), tojson(v)])
+    if key in seen:
+      continue
+    seen.add(key)
+    pairs.append((a, v))
+  plain = [p for p in pairs if not has_coll(p[0])]
+  coll = [p for p in pairs if has_coll(p[0])]
+  # Collection-containing annotations never share a module with the others (the protocol matcher has side effects)
+  groups = [("exact", b) for b in batches_of(plain, rng)] + [("one-sided", b) for b in batches_of(coll, rng)]
+  pred = model_predict(drv, [(mros, ps) for _, (_, mros, ps) in groups])
+  real = run_real([(bases, ps, SITES) for _, (bases, _, ps) in groups])
+  disagreements = []
+  stats = {"checks": 0, "checks_exact": 0, "checks_one_sided": 0, "real_errors": 0, "model_errors": 0,
+           "pairs_in_guard": 0, "pairs_member": 0, "pairs_multi_view": 0, "pairs_not_pyDistinct": 0,
+           "member_oracle_compared": 0, "ann_depth": {}, "val_depth": {}, "by_site_error": {s: 0 for s in SITES}}
+  nontrivial = set()
+  samples = []
+  for (mode, (bases, mros, ps)), pr, ob in zip(groups, pred, real):
+    if "crash" in ob:
+      disagreements.append({"kind": "real-code-crash", "exception": ob["crash"], "source": ob["src"][:6000],
+                            "pairs": [[tojson(a), tojson(v)] for a, v in ps], "bases": bases})
+      continue
+    if ob["stray"]:
+      disagreements.append({"kind": "error-on-unexpected-line", "errors": ob["stray"],
+                            "source": build_module(bases, ps)[0][:6000],
+                            "pairs": [[tojson(a), tojson(v)] for a, v in ps], "bases": bases})
+    env = runtime_env(bases)
+    for i, (a, v) in enumerate(ps):
+      m = pr[i]
+      stats["pairs_in_guard"] += m["guard"] and m["pyDistinct"]
+      stats["pairs_member"] += m["member"]
+      stats["pairs_multi_view"] += not m["singleView"]
+      stats["pairs_not_pyDistinct"] += not m["pyDistinct"]
+      stats["ann_depth"][ann_depth(a)] = stats["ann_depth"].get(ann_depth(a), 0) + 1
+      stats["val_depth"][val_depth(v)] = stats["val_depth"].get(val_depth(v), 0) + 1
+      if not m["inF2"]:
+        disagreements.append({"kind": "generator-left-F2", "pair": pair_repr(bases, a, v)})
+      # the specification itself against the independent Python oracle on the run-time value
+      if m["pyDistinct"]:
+        stats["member_oracle_compared"] += 1
+        try:
+          om = oracle(bases, a, v, env)
+        except Exception as e:
+          om = "exception %r" % (e,)
+        if om != m["member"]:
+          disagreements.append({"kind": "lean-member-vs-python-oracle", "pair": pair_repr(bases, a, v),
+                                "lean_member": m["member"], "python_oracle": om, "bases": bases,
+                                "ann": tojson(a), "val": tojson(v)})
+      outcomes = []
+      for s in SITES:
+        names = ob["obs"].get((i, s), [])
+        expected = [ERR[s]] if m[s] else []
+        stats["checks"] += 1
+        stats["real_errors"] += bool(names)
+        stats["model_errors"] += bool(expected)
+        stats["by_site_error"][s] += bool(names)
+        outcomes.append(bool(names))
+        if mode == "exact":
+          stats["checks_exact"] += 1
+          bad = names != expected
+        else:
+          stats["checks_one_sided"] += 1
+          bad = bool(names) and (names != [ERR[s]] or not expected)   # real errors ⊆ model errors
+        if bad:
+          disagreements.append({"kind": "site-verdict", "mode": mode, "site": s, "pair": pair_repr(bases, a, v),
+                                "real": names, "model": expected, "bases": bases, "ann": tojson(a), "val": tojson(v)})
+      # non-trivial: decided below the top constructor (both sides are compound) or the three sites differ
+      if (ann_depth(a) >= 1 and val_depth(v) >= 1) or len(set(outcomes)) > 1:
+        nontrivial.add(json.dumps([tojson(a), tojson(v)]))
+      if len(samples) < 4 and ann_depth(a) == 2 and val_depth(v) >= 1:
+        samples.append({"annotation": ann_py(a), "value": val_py(v), "real_errors_arg_ret_asg": outcomes,
+                        "model_errors_arg_ret_asg": [m[s] for s in SITES], "member": m["member"], "guard": m["guard"]})
+  res.cov["evaluations"] = stats["checks"]
+  res.cov["distinct_nontrivial"] = len(nontrivial)
+  res.cov["exhaustive"] = False
+  res.cov["programs"] = len(groups)
+  res.cov["rule"] = (
+      "pairs (annotation of grammar F2, ground value expression) over generated 5-class hierarchies (single and "
+      "multiple inheritance), each checked at the three sites (argument / return / annotated assignment), %d checks "
+      "per generated module, one check per line; observed = set of (error class, line) from real io.generate_pyi, "
+      "expected = Lean driver.  %d pairs are the exhaustive product atomic annotation x atomic value, the rest are "
+      "seeded random with annotation depth <= 2 and value depth <= 2 (annotation generated from the value's shape "
+      "with perturbations, so that nested positions decide).  Annotations containing Collection are compared "
+      "one-sidedly (real errors must be predicted; see registry note).  evaluations = checks (pair x site); "
+      "distinct_nontrivial = distinct pairs where both annotation and value are compound, or where the three "
+      "sites disagree among themselves.  In addition Lean `member` is compared with the independent Python "
+      "membership oracle evaluated on the run-time value for every pair whose displays have no equal keys."
+      % (3 * 20, n_ex))
+  res.cov["distribution"] = dict(stats, pairs=len(pairs), pairs_exhaustive_atomic=n_ex, pairs_random=len(pairs) - n_ex,
+                                 pairs_with_Collection=len(coll), modules=len(groups),
+                                 k_wall_s=round(time.time() - t0, 1))
+  res.add_samples(samples)
+  return disagreements
+
+
+# ----------------------------------------------------------------------------------------------
+# the property's own oracle on the real code:  error at the site  <=>  value not a member
+# ----------------------------------------------------------------------------------------------
+def real_verdicts(bases, pairs, isolate=False):
+  """{(i, site): bool error}, or raises on a crash of the real code.  isolate=True: every (pair, site) is analysed
+  in a module of its own (the protocol matcher's side effects make a Collection verdict depend on earlier checks)."""
+  if isolate:
+    jobs = [(bases, [p], (s,)) for p in pairs for s in SITES]
+    outs = run_real(jobs)
+    res = {}
+    for j, o in enumerate(outs):
+      if "crash" in o:
+        raise RuntimeError(o["crash"])
+      i, s = divmod(j, len(SITES))
+      res[(i, SITES[s])] = bool(o["obs"].get((0, SITES[s])))
+    return res
+  out = run_real([(bases, pairs, SITES)])[0]
+  if "crash" in out:
+    raise RuntimeError(out["crash"])
+  return {(i, s): bool(out["obs"].get((i, s))) for i in range(len(pairs)) for s in SITES}
+
+
+def member_documented(x, a, env):
+  """PEP-484 membership amended by the two *documented/configured* upstream rules that are local to one position:
+  R1 a str is not accepted as Sequence/Iterable/Collection[str]; R2 None is accepted for bool (--none-is-not-bool
+  is off by default).  Used only to recognise the characterised region of those two known findings."""
+  k = a[0]
+  if k == "bool":
+    return isinstance(x, bool) or x is None
+  if k in ("seq", "iter", "coll") and isinstance(x, str) and a[1] == ("str",) or (
+      k in ("seq", "iter", "coll") and isinstance(x, str) and list(a[1]) == ["str"]):
+    return False
+  if k in ("opt",):
+    return x is None or member_documented(x, a[1], env)
+  if k == "union":
+    return any(member_documented(x, o, env) for o in a[1])
+  if k in ("list", "set", "fset"):
+    t = {"list": list, "set": set, "fset": frozenset}[k]
+    return isinstance(x, t) and all(member_documented(e, a[1], env) for e in x)
+  if k == "tuphom":
+    return isinstance(x, tuple) and all(member_documented(e, a[1], env) for e in x)
+  if k == "tup":
+    return isinstance(x, tuple) and len(x) == len(a[1]) and all(member_documented(e, o, env) for e, o in zip(x, a[1]))
+  if k in ("seq", "iter", "coll"):
+    abc = {"seq": collections.abc.Sequence, "iter": collections.abc.Iterable, "coll": collections.abc.Collection}[k]
+    if not isinstance(x, abc):
+      return False
+    elems = list(x)
+    if isinstance(x, str):
+      elems.append("x")
+    elif isinstance(x, bytes):
+      elems.append(0)
+    return all(member_documented(e, a[1], env) for e in elems)
+  if k in ("dict", "map"):
+    t = dict if k == "dict" else collections.abc.Mapping
+    return isinstance(x, t) and all(member_documented(kk, a[1], env) and member_documented(vv, a[2], env)
+                                    for kk, vv in x.items())
+  return member(x, a, env)
+
+
+def known_region(a, v, site, error, mem, env):
+  """id of the known finding whose characterised region explains `error == mem` (a failure of the property), or None.
+  Written on the Python side only (independent of the Lean model)."""
+  x = eval(val_py(v), env)
+  if error and mem:            # false error
+    if not member_documented(x, a, env):
+      return "c02-noniterable-str"
+    if not py_distinct(v):
+      return "c02-display-dedup"
+    return None
+  # missed error
+  if site == "asg" and v[0] == "none":
+    return "c02-assign-none"
+  if member_documented(x, a, env):
+    return "c02-none-matches-bool"
+  if has_coll(a):
+    return "c02-collection-structural"
+  if site == "arg" and multi_display(v):
+    return "c02-arg-any-view"
+  if multi_display(v) and any(u[0] == "union" and sum(1 for o in u[1] if not is_flat_ann(o)) >= 2
+                              for u in sub_anns(a)):
+    return "c02-union-per-view"
+  return None
+
+
+def failing_sites(bases, a, v, env=None, isolate=False):
+  """sites where the property fails for this pair on the real code: [(site, error, member, known id or None)]"""
+  env = env or runtime_env(bases)
+  verd = real_verdicts(bases, [(a, v)], isolate)
+  mem = oracle(bases, a, v, env)
+  out = []
+  for s in SITES:
+    err = verd[(0, s)]
+    if err == mem:
+      out.append((s, err, mem, known_region(a, v, s, err, mem, env)))
+  return out
+
+
+# ----------------------------------------------------------------------------------------------
+# W — witnesses of the known findings
+# ----------------------------------------------------------------------------------------------
+def witnesses(res):
+  known, fixed = common.known_findings("C02")
+  replayed = []
+  for e in known:
+    w = e["witness"]
+    bases = w["bases"]
+    a, v = w["ann"], w["val"]
+    try:
+      fs = failing_sites(bases, a, v, isolate=True)
+    except Exception as exc:
+      res.violation("witness-crash", {"property": "C02", "kind": "known-finding witness crashes the real code",
+                                      "id": e["id"], "exception": repr(exc)})
+      continue
+    still = sorted(s for s, _, _, _ in fs if s in w["sites"])
+    replayed.append({"id": e["id"], "sites_failing": still, "annotation": ann_py(a), "value": val_py(v)})
+    if still:
+      res.known_lines.append("%s [%s = %s at site(s) %s]" % (e["what"], ann_py(a), val_py(v), ",".join(still)))
+  for e in fixed:   # none at the time of writing; a fixed witness must pass
+    w = e["witness"]
+    fs = failing_sites(w["bases"], w["ann"], w["val"], isolate=True)
+    if any(s in w["sites"] for s, _, _, _ in fs):
+      res.violation("fixed-regressed", {"property": "C02", "kind": "fixed witness fails again", "id": e["id"],
+                                        "failing": [list(f) for f in fs]})
+  res.cov["witnesses_replayed"] = replayed
+
+
+# ----------------------------------------------------------------------------------------------
+# S — failing-input search (only when P or K broke)
+# ----------------------------------------------------------------------------------------------
+def shrink_candidates(a, v):
+  """structurally smaller pairs"""
+  k = v[0]
+  if k in ("list", "tuple", "set", "fset"):
+    for i, x in enumerate(v[1]):
+      yield a, x
+      yield a, (k, list(v[1][:i]) + list(v[1][i + 1:]))
+  elif k == "dict":
+    for i, (x, y) in enumerate(v[1]):
+      yield a, x
+      yield a, y
+      yield a, (k, list(v[1][:i]) + list(v[1][i + 1:]))
+  ka = a[0]
+  if ka in ("union", "tup"):
+    for i, o in enumerate(a[1]):
+      yield o, v
+      if ka == "tup" or len(a[1]) > 2:
+        yield (ka, list(a[1][:i]) + list(a[1][i + 1:])), v
+  elif ka in GEN1 or ka == "opt":
+    yield a[1], v
+  elif ka in GEN2:
+    yield a[1], v
+    yield a[2], v
+  # shrink both one level (element against parameter)
+  if k in ("list", "tuple", "set", "fset") and (ka in GEN1):
+    for x in v[1]:
+      yield a[1], x
+
+
+def shrink(bases, a, v, site, deadline):
+  def fails(a2, v2):
+    try:
+      return any(s == site and kid is None for s, _, _, kid in failing_sites(bases, a2, v2))
+    except Exception:
+      return False
+  progress = True
+  while progress and time.time() < deadline:
+    progress = False
+    for a2, v2 in shrink_candidates(a, v):
+      if time.time() >= deadline:
+        break
+      if fails(a2, v2):
+        a, v, progress = a2, v2, True
+        break
+  return a, v
+
+
+def search(res, rng, disagreements, pfail):
+  t0 = time.time()
+  budget = 150 if common.tier() == "quick" else 600
+  cands = []
+  for d in disagreements:
+    if "ann" in d and "val" in d:
+      cands.append((d["bases"], d["ann"], d["val"]))
+    for p in d.get("pairs", [])[:20]:
+      cands.append((d["bases"], p[0], p[1]))
+  # neighbourhood: every atomic pair, then fresh seeded pairs
+  bases0, _ = gen_hierarchy(rng)
+  cands += [(bases0, a, v) for a, v in exhaustive_atoms()]
+  for _ in range(600 if common.tier() == "quick" else 4000):
+    b, _ = gen_hierarchy(rng) if rng.random() < 0.1 else (bases0, None)
+    a, v = gen_pair(rng)
+    cands.append((b, a, v))
+  # evaluate the oracle on the real code, module-wise
+  found, tried = [], 0
+  by_bases = {}
+  for b, a, v in cands:
+    by_bases.setdefault(json.dumps(b), []).append((a, v))
+  jobs = []
+  for bj, ps in by_bases.items():
+    b = json.loads(bj)
+    for i in range(0, len(ps), 20):
+      jobs.append((b, ps[i:i + 20], SITES))
+  outs = run_real(jobs)
+  for (b, ps, _), o in zip(jobs, outs):
+    if "crash" in o:
+      found.append({"kind": "real-code-crash", "exception": o["crash"], "hierarchy": hierarchy_src(b),
+                    "pairs": [pair_repr(b, a, v) for a, v in ps][:20]})
+      continue
+    env = runtime_env(b)
+    for i, (a, v) in enumerate(ps):
+      tried += 1
+      try:
+        mem = oracle(b, a, v, env)
+      except Exception:
+        continue
+      for s in SITES:
+        err = bool(o["obs"].get((i, s)))
+        if err == mem and known_region(a, v, s, err, mem, env) is None:
+          found.append({"bases": b, "ann": a, "val": v, "site": s, "error": err, "member": mem})
+  res.cov["search_pairs_tried"] = tried
+  # shrink the smallest few to a single (annotation, value, site)
+  real_found = [f for f in found if "ann" in f]
+  real_found.sort(key=lambda f: len(ann_py(f["ann"])) + len(val_py(f["val"])))
+  out = [f for f in found if "ann" not in f][:1]
+  seen = set()
+  for f in real_found:
+    if len(out) >= 3 or time.time() - t0 > budget:
+      break
+    a, v = shrink(f["bases"], f["ann"], f["val"], f["site"], t0 + budget)
+    key = (ann_py(a), val_py(v), f["site"])
+    if key in seen:
+      continue
+    seen.add(key)
+    env = runtime_env(f["bases"])
+    mem = oracle(f["bases"], a, v, env)
+    src, _ = build_module(f["bases"], [(a, v)], (f["site"],))
+    out.append({"annotation": ann_py(a), "value": val_py(v), "site": f["site"],
+                "pytype_reports_error": f["error"], "value_is_member_of_annotation": mem,
+                "what": ("pytype reports [%s] although the value inhabits the annotation" % ERR[f["site"]]) if f["error"]
+                        else "pytype reports nothing although the value is outside the annotated type",
+                "program": src, "ann": tojson(a), "val": tojson(v), "bases": f["bases"]})
+  return out
+
+
+TRUSTED = [
+    "hand-written model of matcher.py / the three enforcement sites for a fully known value (Sem/Matcher.lean), tied by "
+    "correspondence on sampled pairs; `member` (the specification) is tied to an independent Python isinstance/"
+    "collections.abc oracle evaluated on the run-time value",
+    "translate/compat.py (AST/introspection of pep484.py, config.py, optimize.py, matcher.py) for Generated/Compat.lean",
+    "CPython as evaluator of the ground value expressions and of the generated class hierarchy's MROs",
+]
+ASSUMPTIONS = [
+    "MRO of each generated class is taken from CPython (pytype's linearisation agrees: property C10)",
+    "deep_variable_product's 1024-combination limit is not reached (values have depth <= 2 and <= 3 elements per display)",
+    "default options (python_version 3.12): none_is_not_bool=False, strict_parameter_checks irrelevant to call matching",
+    "annotations containing typing.Collection are compared one-sidedly: pytype's structural protocol matcher has "
+    "side effects on the typegraph (it drops failing views afterwards) that the model does not describe",
+]
+
+REQUIRED[:] = [
+    "match_exact_not_full", "match_exact_partial", "deviation_none_bool", "deviation_union_per_view",
+    "deviation_collection", "guard_of_small", "site_uniform", "site_uniform_not_full", "site_uniform_not_full_asg",
+    "site_le_ret", "singleView_of_small", "site_exact_partial",
+]
+
+
+def prepare():
+  """prepare step: regenerate Generated/Compat.lean from the tree under verification (rewritten only on change)"""
+  import subprocess
+  r = subprocess.run([common.PY, os.path.join(common.VERIF, "translate", "compat.py")], cwd=common.VERIF,
+                     stdout=subprocess.PIPE, stderr=subprocess.STDOUT, text=True,
+                     env=dict(os.environ, PYTYPE_REPO=common.REPO))
+  if r.returncode != 0:
+    print("translate/compat.py failed:\n" + r.stdout[-2000:], file=sys.stderr)
+    sys.exit(2)
+
+
+def main():
+  common.ensure_ext()
+  prepare()
+  return common.run_check("C02", REQUIRED, correspond, witnesses, search, trusted=TRUSTED, assumptions=ASSUMPTIONS,
+                          extra_targets=("drv_c02",))
+
+
+if __name__ == "__main__":
+  sys.exit(main())
